@@ -11,6 +11,7 @@ import (
 	"bytes"
 	"fmt"
 	"os"
+	"reflect"
 	"sort"
 	"strings"
 	"testing"
@@ -438,11 +439,11 @@ func c15Base(dir string) map[string]string {
 		"logger.root.level":           "info",
 		"logger.root.appenderRef.ref": "console",
 
-		"logger.myLogger.type":               "AsyncLogger",
-		"logger.myLogger.tags":               "_replayx_*",
-		"logger.myLogger.bufferSize":         "160",
-		"logger.myLogger.appenderRef[0].ref": "file",
-		"logger.myLogger.appenderRef[1].ref": "console",
+		"logger.myLogger.type":                 "AsyncLogger",
+		"logger.myLogger.tags":                 "_replayx_*",
+		"logger.myLogger.bufferSize":           "160",
+		"logger.myLogger.appenderRef[0].ref":   "file",
+		"logger.myLogger.appenderRef[1].ref":   "console",
 		"logger.myLogger.appenderRef[1].level": "warn~error",
 	}
 }
@@ -546,8 +547,14 @@ func TestGovcBounded_C15(t *testing.T) {
 		edit func(cfg map[string]string)
 	}
 	spell := []variant{
-		{"kebab", func(c map[string]string) { delete(c, "logger.myLogger.bufferSize"); c["logger.myLogger.buffer-size"] = "160" }},
-		{"snake", func(c map[string]string) { delete(c, "logger.myLogger.bufferSize"); c["logger.myLogger.buffer_size"] = "160" }},
+		{"kebab", func(c map[string]string) {
+			delete(c, "logger.myLogger.bufferSize")
+			c["logger.myLogger.buffer-size"] = "160"
+		}},
+		{"snake", func(c map[string]string) {
+			delete(c, "logger.myLogger.bufferSize")
+			c["logger.myLogger.buffer_size"] = "160"
+		}},
 		{"kebab-path", func(c map[string]string) {
 			delete(c, "logger.root.appenderRef.ref")
 			c["logger.root.appender-ref.ref"] = "console"
@@ -556,7 +563,10 @@ func TestGovcBounded_C15(t *testing.T) {
 			delete(c, "logger.root.appenderRef.ref")
 			c["logger.root.appender_ref.ref"] = "console"
 		}},
-		{"upper-initial", func(c map[string]string) { delete(c, "logger.myLogger.bufferSize"); c["logger.myLogger.BufferSize"] = "160" }},
+		{"upper-initial", func(c map[string]string) {
+			delete(c, "logger.myLogger.bufferSize")
+			c["logger.myLogger.BufferSize"] = "160"
+		}},
 		{"inline-appender", func(c map[string]string) {
 			delete(c, "appender.file.type")
 			delete(c, "appender.file.fileDir")
@@ -648,20 +658,20 @@ func TestGovcBounded_C15(t *testing.T) {
 
 	// (5) values that do not convert, unknown classes, dangling references: an error, never a panic
 	bad := map[string][]string{
-		"logger.myLogger.bufferSize":            {"abc", "", "1.5", "12x", "0x", "999999999999999999999999", "<nil>", "{}", "[]", "${appender}", "${logger.root}"},
-		"logger.myLogger.bufferFullPolicy":      {"block", "Drop", "", "1"},
-		"logger.root.level":                     {"loud", "info~", "~error", "info~loud", "~", "<nil>", "{}", "[]"},
-		"logger.myLogger.appenderRef[1].level":  {"x", "warn~y"},
-		"appender.roll.rotation":                {"", "1h", "hourly", "H"},
-		"appender.roll.maxAge":                  {"x", "", "1e3", "99999999999", "-99999999999", "1.0"},
-		"appender.console.type":                 {"console", "Nope", ""},
-		"logger.root.type":                      {"SyncLogger", "logger", ""},
-		"appender.console.layout.type":          {"Nope", "textLayout"},
+		"logger.myLogger.bufferSize":             {"abc", "", "1.5", "12x", "0x", "999999999999999999999999", "<nil>", "{}", "[]", "${appender}", "${logger.root}"},
+		"logger.myLogger.bufferFullPolicy":       {"block", "Drop", "", "1"},
+		"logger.root.level":                      {"loud", "info~", "~error", "info~loud", "~", "<nil>", "{}", "[]"},
+		"logger.myLogger.appenderRef[1].level":   {"x", "warn~y"},
+		"appender.roll.rotation":                 {"", "1h", "hourly", "H"},
+		"appender.roll.maxAge":                   {"x", "", "1e3", "99999999999", "-99999999999", "1.0"},
+		"appender.console.type":                  {"console", "Nope", ""},
+		"logger.root.type":                       {"SyncLogger", "logger", ""},
+		"appender.console.layout.type":           {"Nope", "textLayout"},
 		"appender.console.layout.fileLineLength": {"wide", "4.5", ""},
-		"logger.root.appenderRef.ref":           {"nope", "", "Console"},
-		"logger.myLogger.appenderRef[0].ref":    {"missing"},
-		"bufferCap":                             {"10", "KB", "1GB", "-1KB", "1.5KB", "2048MB", "4096MB", "9007199254740993MB"},
-		"enableCaller":                          {"yes!", "2"},
+		"logger.root.appenderRef.ref":            {"nope", "", "Console"},
+		"logger.myLogger.appenderRef[0].ref":     {"missing"},
+		"bufferCap":                              {"10", "KB", "1GB", "-1KB", "1.5KB", "2048MB", "4096MB", "9007199254740993MB"},
+		"enableCaller":                           {"yes!", "2"},
 	}
 	var bkeys []string
 	for k := range bad {
@@ -1021,4 +1031,223 @@ func TestGovcBounded_C17(t *testing.T) {
 	distinct["long-inputs"] = true
 	fmt.Printf("BOUNDED: cases=%d distinct=%d bound=string literals of at most %d lexer items (all 19 alternatives of the STRING rule); %d generated well-formed expressions (nesting <= 6, all literal kinds, dotted/indexed paths, duplicate keys, arbitrary token spacing, optional trailing comma) against a reference flattening; totality on every string of length <= %d over an 18-symbol alphabet, on insert/replace/truncate mutations of 400 valid expressions with 22 junk fragments, and on 6 inputs of up to 64 KiB; distinct counts case classes\n",
 		cases, len(distinct), depth, gen, L)
+}
+
+// ---------------------------------------------------------------------------------------------------
+// The state package initialisation leaves behind.  Package initialisation takes no input, so running
+// it once (this test binary has just done so) is an exhaustive check of these facts; they are the
+// base case of the lifecycle invariants the contracts of the entry points, Refresh and Destroy assume
+// (`requires`) and keep, and they back the axioms of the contract file about package variables.
+// NOTE: the test binary also runs the init functions of the repository's own _test files, which may
+// register further tags, handles and plugins; the facts below are stable under such registrations.
+
+type initialFact struct {
+	name  string
+	props string
+	check func() string
+}
+
+func TestGovcInitial(t *testing.T) {
+	if os.Getenv("GOVC_INITIAL") == "" {
+		t.Skip("no initial-state check requested")
+	}
+	facts := []initialFact{
+		{"the-fallback-logger-takes-every-level", "C01,C10,C16", func() string {
+			cl, ok := defaultLogger.(*ConsoleLogger)
+			if !ok || cl == nil {
+				return fmt.Sprintf("defaultLogger is %T, want a non-nil *ConsoleLogger", defaultLogger)
+			}
+			if cl.Level.MinLevel != NoneLevel || cl.Level.MaxLevel != MaxLevel {
+				return fmt.Sprintf("the built-in console logger's range is [%s, %s), want [NONE, MAX): levels outside it are dropped when no configuration is live", cl.Level.MinLevel.Name(), cl.Level.MaxLevel.Name())
+			}
+			if cl.ConsoleAppender.Layout == nil {
+				return "the built-in console logger has no layout"
+			}
+			return ""
+		}},
+		{"built-in-levels", "C01", func() string {
+			want := []struct {
+				l    Level
+				code int32
+				name string
+			}{{NoneLevel, 0, "NONE"}, {TraceLevel, 100, "TRACE"}, {DebugLevel, 200, "DEBUG"}, {InfoLevel, 300, "INFO"}, {WarnLevel, 400, "WARN"},
+				{ErrorLevel, 500, "ERROR"}, {PanicLevel, 600, "PANIC"}, {FatalLevel, 700, "FATAL"}, {MaxLevel, 999, "MAX"}}
+			if levelRegistry == nil {
+				return "levelRegistry is nil"
+			}
+			for i, w := range want {
+				if w.l.code != w.code || w.l.name != w.name {
+					return fmt.Sprintf("built-in level %s has code %d name %q", w.name, w.l.code, w.l.name)
+				}
+				if r, ok := levelRegistry[w.name]; !ok || r != w.l {
+					return fmt.Sprintf("built-in level %s is not registered under its name", w.name)
+				}
+				if i > 0 && want[i-1].code >= w.code {
+					return "built-in level codes are not increasing"
+				}
+			}
+			return ""
+		}},
+		{"registries-well-formed", "C02,C12,C16,C18", func() string {
+			if tagRegistry == nil || loggerMap == nil {
+				return "a registry is nil"
+			}
+			for k, tg := range tagRegistry {
+				if tg == nil || tg.tag != k {
+					return fmt.Sprintf("tag registry entry %q is nil or registered under another name", k)
+				}
+			}
+			for k, w := range loggerMap {
+				if w == nil || w.name != k {
+					return fmt.Sprintf("handle registry entry %q is nil or registered under another name", k)
+				}
+			}
+			if global.init || len(global.loggers) != 0 || len(global.appenders) != 0 {
+				return "the library starts with a live configuration"
+			}
+			return ""
+		}},
+		{"no-binding-before-the-first-refresh", "C16", func() string {
+			for k, tg := range tagRegistry {
+				if tg.logger != nil {
+					return fmt.Sprintf("tag %q is bound before any Refresh", k)
+				}
+			}
+			for k, w := range loggerMap {
+				if w.logger != nil {
+					return fmt.Sprintf("handle %q is bound before any Refresh", k)
+				}
+			}
+			return ""
+		}},
+		{"property-setters-and-tables", "C15,C11", func() string {
+			if propertyRegistry == nil || typeConverters == nil || timeRotationRegistration == nil || bytesSizeTable == nil {
+				return "a configuration table is nil"
+			}
+			for k, f := range propertyRegistry {
+				if f == nil {
+					return fmt.Sprintf("property %q has no setter", k)
+				}
+			}
+			for _, k := range []string{"enableCaller", "fastCaller", "bufferCap"} {
+				if propertyRegistry[k] == nil {
+					return fmt.Sprintf("property %q is not registered", k)
+				}
+			}
+			for u, m := range bytesSizeTable {
+				if m < 1 {
+					return fmt.Sprintf("size unit %q has multiplier %d", u, m)
+				}
+			}
+			if !enableCaller || fastCaller {
+				return "caller lookup does not start enabled in default mode"
+			}
+			return ""
+		}},
+		{"registered-plugin-classes", "C15", func() string {
+			for typ, names := range map[PluginType][]string{
+				PluginTypeAppender: {"Discard", "Console", "File", "RollingFile"},
+				PluginTypeLogger:   {"Logger", "AsyncLogger", "Discard", "Console", "File", "RollingFile"},
+				PluginTypeLayout:   {"TextLayout", "JSONLayout"},
+			} {
+				for _, n := range names {
+					if p := pluginRegistry[typ][n]; p == nil || p.Class == nil {
+						return fmt.Sprintf("%s class %q is not registered", typ, n)
+					}
+				}
+			}
+			return ""
+		}},
+		{"caller-switch-keys-drive-their-own-switch", "C11,C15", func() string {
+			// which setter init() registered under which key (the setters themselves, for every string, are
+			// under contract as RegisterProperty(enableCaller) / RegisterProperty(fastCaller)); executed for
+			// the two boolean values, the switches are restored afterwards
+			e0, f0 := enableCaller, fastCaller
+			defer func() { enableCaller, fastCaller = e0, f0 }()
+			for _, v := range []bool{false, true} {
+				for _, w := range []bool{false, true} {
+					enableCaller, fastCaller = w, w
+					if set := propertyRegistry["fastCaller"]; set == nil || set(fmt.Sprint(v)) != nil || fastCaller != v || enableCaller != w {
+						return fmt.Sprintf("fastCaller=%v (both switches %v before) leaves enableCaller=%v fastCaller=%v", v, w, enableCaller, fastCaller)
+					}
+					enableCaller, fastCaller = w, w
+					if set := propertyRegistry["enableCaller"]; set == nil || set(fmt.Sprint(v)) != nil || enableCaller != v || fastCaller != w {
+						return fmt.Sprintf("enableCaller=%v (both switches %v before) leaves enableCaller=%v fastCaller=%v", v, w, enableCaller, fastCaller)
+					}
+				}
+			}
+			return ""
+		}},
+		{"plugin-classes-are-well-formed", "C15,C16", func() string {
+			// what Refresh, NewPlugin, inject and injectElement require of the registry (pluginsWF,
+			// classesImplement, classWF) holds of every class this package registers
+			if pluginRegistry == nil || typeConverters == nil {
+				return "the plugin registry or the converter table is nil"
+			}
+			ifaceOf := map[PluginType]reflect.Type{
+				PluginTypeAppender: reflect.TypeFor[Appender](),
+				PluginTypeLogger:   reflect.TypeFor[Logger](),
+			}
+			var wf func(t reflect.Type, path string) string
+			wf = func(t reflect.Type, path string) string {
+				if t == nil || t.Kind() != reflect.Struct {
+					return path + " is not a struct type"
+				}
+				for i := 0; i < t.NumField(); i++ {
+					ft := t.Field(i)
+					if tag, ok := ft.Tag.Lookup("PluginAttribute"); ok {
+						if PluginTag(tag).Get("") == "name" && ft.Type.Kind() != reflect.String {
+							return fmt.Sprintf("%s.%s: a name attribute that is not a string", path, ft.Name)
+						}
+						if !ft.IsExported() {
+							return fmt.Sprintf("%s.%s: an attribute that cannot be set", path, ft.Name)
+						}
+						continue
+					}
+					if tag, ok := ft.Tag.Lookup("PluginElement"); ok {
+						kind, _ := strings.CutSuffix(PluginTag(tag).Get(""), "?")
+						target := ft.Type
+						if ft.Type.Kind() == reflect.Slice {
+							target = ft.Type.Elem()
+						} else if ft.Type.Kind() != reflect.Interface {
+							return fmt.Sprintf("%s.%s: an element that is neither a list nor an interface", path, ft.Name)
+						}
+						for n, p := range pluginRegistry[PluginType(toCamelKey(kind))] {
+							if !reflect.PointerTo(p.Class).AssignableTo(target) {
+								return fmt.Sprintf("%s.%s: registered %s class %q cannot be assigned to the field", path, ft.Name, kind, n)
+							}
+						}
+						continue
+					}
+					if ft.Anonymous && ft.Type.Kind() == reflect.Struct {
+						if msg := wf(ft.Type, path+"."+ft.Name); msg != "" {
+							return msg
+						}
+					}
+				}
+				return ""
+			}
+			for typ, m := range pluginRegistry {
+				for n, p := range m {
+					if p == nil || p.Class == nil {
+						return fmt.Sprintf("%s class %q has no class", typ, n)
+					}
+					if it, ok := ifaceOf[typ]; ok && !reflect.PointerTo(p.Class).Implements(it) {
+						return fmt.Sprintf("%s class %q does not implement its kind", typ, n)
+					}
+					if msg := wf(p.Class, string(typ)+":"+n); msg != "" {
+						return msg
+					}
+				}
+			}
+			return ""
+		}},
+	}
+	for _, f := range facts {
+		if msg := f.check(); msg != "" {
+			fmt.Printf("INITIAL-VIOLATION %s [%s]: %s\n", f.name, f.props, msg)
+		} else {
+			fmt.Printf("INITIAL-OK %s [%s]\n", f.name, f.props)
+		}
+	}
 }
